@@ -57,12 +57,30 @@ def walk (timeAt : Nat → Option Int64) (oldTailH storeH : Nat) (expected : Int
       | some t => if expected ≤ t then some h else walk timeAt oldTailH storeH expected fuel (h + 1)
     else some h
 
+/-- the downward walk of `findTailHeight`: from the estimate downwards while the header BELOW is still
+    inside the window (its time is not before the expected tail time), never below the old tail and only where
+    the store has headers (`h ≤ storeH`) -/
+def walkDown (timeAt : Nat → Option Int64) (oldTailH storeH : Nat) (expected : Int64) : Nat → Nat → Option Nat
+  | 0, h => some h
+  | fuel+1, h =>
+    if h > oldTailH ∧ h ≤ storeH then
+      match timeAt (h - 1) with
+      | none => none                               -- store.GetByHeight failed
+      | some t => if t < expected then some h else walkDown timeAt oldTailH storeH expected fuel (h - 1)
+    else some h
+
+/-- both loops: down first, then up -/
+def walkBoth (timeAt : Nat → Option Int64) (oldTailH storeH : Nat) (expected : Int64) (n : Nat) : Option Nat :=
+  match walkDown timeAt oldTailH storeH expected (n + 1) n with
+  | none => none
+  | some d => walk timeAt oldTailH storeH expected (storeH + 1) d
+
 /-- `findTailHeight` -/
 def findTailHeight (window blockTime : Int64) (timeAt : Nat → Option Int64) (oldTailH : UInt64) (oldTailT : Int64)
     (headH : UInt64) (headT : Int64) (storeH : Nat) : Outcome (Option Nat) :=
   match tailEstimate window blockTime oldTailH oldTailT headH headT with
   | .panic => .panic
   | .val (.done h) => .val (some h.toNat)
-  | .val (.walk n expected) => .val (walk timeAt oldTailH.toNat storeH expected (storeH + 1) n.toNat)
+  | .val (.walk n expected) => .val (walkBoth timeAt oldTailH.toNat storeH expected n.toNat)
 
 end GoHeader.Tail
